@@ -225,9 +225,9 @@ class _FakeProcess:
         self.stdout = None
 
 
-ENCODERS = ('json6', 'json4', 'text6', 'text4')
-IS_JSON = {'json6': True, 'json4': True, 'text6': False, 'text4': False}
-VERSION = {'json6': json_version, 'json4': json_v4_version, 'text6': json_version, 'text4': text_v4_version}
+ENCODERS = ('json6', 'json4', 'text6', 'text4', 'json6c')  # json6c: exabgp.api.compact = true
+IS_JSON = {'json6': True, 'json4': True, 'text6': False, 'text4': False, 'json6c': True}
+VERSION = {'json6': json_version, 'json4': json_v4_version, 'text6': json_version, 'text4': text_v4_version, 'json6c': json_version}
 
 SESSION_SHAPES = {
     # name: (families, add_path, asn4, local_as, peer_as)
@@ -258,6 +258,7 @@ class Rig:
             'json4': lambda: Response.V4.JSON(json_v4_version),
             'text6': lambda: Response.Text(json_version),
             'text4': lambda: Response.V4.Text(text_v4_version),
+            'json6c': lambda: Response.JSON(json_version),
         }
         for name in ENCODERS:
             r, w = os.pipe()
@@ -270,6 +271,7 @@ class Rig:
             self._r[name] = r
             self.proc._process[name] = _FakeProcess(w)  # type: ignore[assignment]
             self.proc._encoder[name] = mk[name]()
+        self.proc._encoder['json6c'].compact = True  # what `exabgp.api.compact` sets in JSON.__init__
         self._sessions: dict[str, tuple] = {}
         self.host = socket.gethostname()
 
